@@ -516,6 +516,7 @@ def cdrive(path, ops, cfg, fault=None):
     bof = len(init)
     cols = [Collection(path, UkvCollectionBackend, readonly=ro, bufsize=bs) for bs, ro in cfg]
     cms = [None] * len(cfg)
+    pending = [[] for _ in cfg]   # per collection: keys of accepted puts not yet seen in the file
     all_cols = []         # collection objects replaced by a pickled copy (their queues are cleared at the end too)
     res, cops, viol = [], [], []
     model = {}            # oracle: abstract map, maintained while every put is written through immediately
@@ -551,7 +552,17 @@ def cdrive(path, ops, cfg, fault=None):
                 cm.__exit__(None, None, None); r = "BOk"
             elif k == "put":
                 listed_before = set(c.keys())
-                c[o[2]] = o[3].b
+                fk0 = {x.decode() for x in be._ukvfile.keys()} if hasattr(be, "_ukvfile") else set()
+                qk0 = {x for x, _ in be._write_queue}
+                sound = cms[i] is not None and be._state == "writing" and o[2] not in tainted
+                if sound and not (o[2] in fk0 or o[2] in qk0 or len(o[2].encode()) > 255):
+                    pending[i].append(o[2])     # a put the map must keep: written or still buffered from now on
+                try:
+                    c[o[2]] = o[3].b
+                except Exception:
+                    if o[2] in pending[i] and not any(x == o[2] for x, _ in be._write_queue):
+                        pass                    # judged below (the flush it triggered may have failed on ANOTHER item)
+                    raise
                 r = "BOk"
                 if cms[i] is None or be._state != "writing":
                     # outside a session, or buffered inside a READING session (it can only fail, late, at the flush):
@@ -632,6 +643,7 @@ def cdrive(path, ops, cfg, fault=None):
                 j = o[2]
                 all_cols.append(cols[j])
                 cols[j] = pickle.loads(pickle.dumps(c)); cms[j] = None; r = "BOk"
+                pending[j] = []
         except Exception as e:
             r = classify(e)
             if k == "put" and exact and cms[i] is not None:      # use outside a session is outside the claim
@@ -640,6 +652,23 @@ def cdrive(path, ops, cfg, fault=None):
             if k in ("endw", "endr"):
                 pass
         cops.append(bop_coq(o)); res.append(r)
+        # an accepted put is never lost: after every operation each one is in the file or still in the write queue
+        # (a failing flush drops only the item whose write failed)
+        for j, cj in enumerate(cols):
+            if not pending[j]:
+                continue
+            bj = cj._backend
+            fk = {x.decode() for x in bj._ukvfile.keys()} if hasattr(bj, "_ukvfile") else set()
+            qk = {x for x, _ in bj._write_queue}
+            for key in list(pending[j]):
+                if key in fk:
+                    pending[j].remove(key)
+                elif key not in qk:
+                    pending[j].remove(key)
+                    if fault is None:
+                        viol.append(("C02:collection:accepted-put-lost",
+                                     f"put({key[:8]!r}) was accepted inside a writing session (fresh key, legal size) and is now neither in the "
+                                     f"file nor in the write buffer (after op {len(cops)}: {cops[-1][:40]}): a successful put vanished"))
     for i, cm in enumerate(cms):
         if cm is not None:
             try:
